@@ -137,7 +137,7 @@ def judgeQuery (s : St) (i : Nat) (opName : String) (r : Nat) (q : Query) (seg :
     (modelAns : Option (List Entry)) : Except String St :=
   match parseEntries seg with
   | none =>
-    if seg.startsWith "PANIC" then .error s!"reject op#{i} {opName}:{q.lo}:{q.hi} panicked: {seg}"
+    if seg.startsWith "PANIC" then .error s!"reject {opName} op#{i} {opName}:{q.lo}:{q.hi} panicked: {seg}"
     else .error s!"bad-op op#{i} unparsable result segment"
   | some got =>
     let stored := storedOf s r
@@ -152,12 +152,12 @@ def judgeQuery (s : St) (i : Nat) (opName : String) (r : Nat) (q : Query) (seg :
         | some m => if m == got then s.tag "order-eq" else s.tag "drift-order"
         | none => s
       .ok s
-    else .error s!"diff op#{i} {opName}:{q.lo}:{q.hi} expected {showEntries exp}"
+    else .error s!"diff {opName} op#{i} {opName}:{q.lo}:{q.hi} expected {showEntries exp}"
 
 def judgeDump (s : St) (i : Nat) (seg : String) : Except String St :=
   match parseList parseDNode seg with
   | none =>
-    if seg.startsWith "PANIC" then .error s!"reject op#{i} dump panicked" else .error s!"bad-op op#{i} unparsable dump"
+    if seg.startsWith "PANIC" then .error s!"reject dump op#{i} panicked" else .error s!"bad-op op#{i} unparsable dump"
   | some nodes =>
     let tree? : Option Tree :=
       if nodes.isEmpty then some .nil else
@@ -180,7 +180,7 @@ def judgeDump (s : St) (i : Nat) (seg : String) : Except String St :=
           if size t ≠ n then s!"node-count {size t} after {n} insertions"
           else if !balancedB t then "not height-balanced"
           else "max/order invariant broken (a query can miss an entry)"
-        .error s!"reject op#{i} dump: {why}"
+        .error s!"reject dump op#{i}: {why}"
 
 def step (kind : String) (s : St) (i : Nat) (op : Op) (segs : List String) : Except String (St × List String) :=
   let needSeg (k : String → Except String St) : Except String (St × List String) :=
@@ -217,7 +217,7 @@ def step (kind : String) (s : St) (i : Nat) (op : Op) (segs : List String) : Exc
         if !s.indexed then
           if seg.startsWith "PANIC" then
             .ok ((s.tag "refused").tagIf (!(seg.splitOn "not-been-indexed").tail.isEmpty) "refused-msg")
-          else .error s!"reject op#{i} query on an un-indexed tree was not refused"
+          else .error s!"reject not-refused op#{i}: query on an un-indexed tree was not refused"
         else judgeQuery s i "find" r q seg (s.iit.find q)
       else if isAmap kind then
         let s := s.tagIf (!(s.stored.any (fun p => p.1 == r))) "absent-id"
@@ -228,7 +228,7 @@ def step (kind : String) (s : St) (i : Nat) (op : Op) (segs : List String) : Exc
     needSeg fun seg =>
       if !s.indexed then
         if seg.startsWith "PANIC" then .ok (s.tag "refused")
-        else .error s!"reject op#{i} query on an un-indexed tree was not refused"
+        else .error s!"reject not-refused op#{i}: query on an un-indexed tree was not refused"
       else (judgeQuery s i "findinto" 0 q seg (s.iit.find q)).map (·.tag "find_into")
   | .findmut q delta =>
     needSeg fun seg =>
